@@ -30,7 +30,9 @@ func newPacketBuffer(r io.Reader, packetSize int, s PacketSkipper) (pb *packetBu
 	if pb.packetSize == 0 {
 		// Auto detect packet size
 		if pb.packetSize, err = autoDetectPacketSize(r); err != nil {
-			err = fmt.Errorf("astits: auto detecting packet size failed: %w", err)
+			if err != ErrNoMorePackets {
+				err = fmt.Errorf("astits: auto detecting packet size failed: %w", err)
+			}
 			return
 		}
 	}
@@ -46,6 +48,11 @@ func autoDetectPacketSize(r io.Reader) (packetSize int, err error) {
 	var b = make([]byte, l)
 	shouldRewind, rerr := peek(r, b)
 	if rerr != nil {
+		// Nothing left to read: this is the end of the stream, not a failure
+		if rerr == io.EOF || rerr == io.ErrUnexpectedEOF {
+			err = ErrNoMorePackets
+			return
+		}
 		err = fmt.Errorf("astits: reading first %d bytes failed: %w", l, rerr)
 		return
 	}
@@ -73,7 +80,11 @@ func autoDetectPacketSize(r io.Reader) (packetSize int, err error) {
 				return
 			} else if n == -1 {
 				var ls = packetSize - (l - packetSize)
-				if _, err = r.Read(make([]byte, ls)); err != nil {
+				if _, err = io.ReadFull(r, make([]byte, ls)); err != nil {
+					if err == io.EOF || err == io.ErrUnexpectedEOF {
+						err = ErrNoMorePackets
+						return
+					}
 					err = fmt.Errorf("astits: reading %d bytes to sync reader failed: %w", ls, err)
 					return
 				}
@@ -99,7 +110,11 @@ func peek(r io.Reader, b []byte) (shouldRewind bool, err error) {
 		return false, nil
 	}
 
-	_, err = r.Read(b)
+	// A single Read may return fewer bytes than requested, make sure the buffer is filled. A stream shorter
+	// than the buffer is not an error here, the remaining bytes are left to zero
+	if _, err = io.ReadFull(r, b); err == io.ErrUnexpectedEOF {
+		err = nil
+	}
 	shouldRewind = true
 	return
 }
